@@ -125,9 +125,9 @@ func genC12(w *simrt.Choices, tier string, avoid map[string]bool) Case {
 // scanner's own removals.
 type scanStore struct {
 	storage.Store
-	seq      *int64
-	scans    []scanWin
-	removals []scanRemoval
+	seq            *int64
+	scans          []scanWin
+	removals       []scanRemoval
 	onFirstRemoval func()
 }
 
